@@ -256,6 +256,20 @@ FloatCheck(e) ==
     IF ~e.deleting /\ e.raised = "negative-storage"
     THEN Fail(e, "deletion-free-model-rejected-for-negative-storage", e.note) ELSE TRUE
 
+(* C04 on live systems with services: what every server / storage offers at every hour (nb, cap) next to what its jobs    *)
+(* need (need, cum; thousandths of an instance, MB), recomputed by the harness from the jobs' own hourly occurrences         *)
+LiveSizingCheck(e) ==
+    LET srvBad == UNION {{<<r.o, r.h[k], "need", r.need[k], "instances", r.nb[k]>> : k \in {x \in DOMAIN r.h :
+                      \/ r.nb[x] + 1 < r.need[x]
+                      \/ r.type = "autoscaling" /\ (r.nb[x] % 1000 # 0 \/ r.nb[x] - r.need[x] > 1001)
+                      \/ r.type = "serverless" /\ (r.nb[x] - r.need[x] > 1)
+                      \/ r.type = "on-premise" /\ (r.nb[x] % 1000 # 0 \/ r.nb[x] # r.nb[1])}} : r \in SeqSet(e.servers)}
+        stoBad == UNION {{<<r.o, r.h[k], "stored", r.cum[k], "capacity", r.cap[k]>> : k \in {x \in DOMAIN r.h :
+                      r.cum[x] < 0 \/ r.cap[x] + 1 < r.cum[x]}} : r \in SeqSet(e.storages)}
+    IN  /\ IF "error" \in DOMAIN e THEN Fail(e, "live-sizing:could-not-be-observed", e.error) ELSE TRUE
+        /\ IF srvBad # {} THEN Fail(e, "live-sizing:server-not-sized-for-its-jobs", srvBad) ELSE TRUE
+        /\ IF stoBad # {} THEN Fail(e, "live-sizing:storage-not-sized-for-its-jobs", stoBad) ELSE TRUE
+
 Step ==
     /\ i < N
     /\ i' = i + 1
@@ -266,6 +280,7 @@ Step ==
          [] e.ev = "Pair" -> PairCheck(e)
          [] e.ev = "Call" -> CallCheck(e)
          [] e.ev = "FloatModel" -> FloatCheck(e)
+         [] e.ev = "LiveSizing" -> LiveSizingCheck(e)
 
 Init == i = 0
 Next == Step
